@@ -69,6 +69,8 @@ theorem closed_unique (ev : Evalr ρ) : Closed UStrong (fun _ => True) ElemUniqu
   reuseT := fun st re orig inst1 rng pos _ ht h => by
     obtain ⟨f1, f2⟩ := Ctl.reuse_chain_keysIn ev st re orig inst1 rng pos ht.1 h
     exact ⟨ustrong_of_keysIn f1 class_not_instKeys ht, ustrong_of_keysIn f2 class_not_instKeys ht⟩
+  storeD := fun _ _ => trivial
+  applyD := fun _ _ _ _ => trivial
 
 /-- the input condition: every element of the document tree is as the reader builds it -/
 def DocUnique (ks : Nodes) : Prop := NodesT UStrong ks
@@ -78,7 +80,10 @@ def StateUnique (st : St ρ) : Prop := SInv UStrong (fun _ => True) st
 
 theorem stateUnique_of_nil (st : St ρ) (h : st.originals = []) : StateUnique st := by
   unfold StateUnique SInv OrigOK
-  rw [h]; intro p hp; cases hp
+  rw [h]
+  refine ⟨?_, fun _ _ _ _ => trivial⟩
+  intro p hp
+  cases hp
 
 /-- **emitted elements never carry an attribute twice**, for every document whose elements are as the reader
     builds them: an emitted element is either copied from the tree / a reuse instance (unique because the source
